@@ -141,6 +141,21 @@ def build_cases(tier, seed):
     tail = [["flush", "1", "1", "0"], ["flushwait", "1"], ["get", b"k1".hex()], ["get", b"k2".hex()]]
     for name, th, ops in directed_scripts():
         cases.append((name, "directed", th, ops if name.startswith("d-stale") else ops + tail))
+    # sweep: one base script, the running flush acknowledged at EVERY possible point of it (and its mutations reaching the
+    # store one by one before that): reads must be the same at every release point
+    keys3 = [k.hex() for k in KEYS[:4]]
+    for b in range({"quick": 8, "thorough": 40}.get(tier, 8)):
+        base = []
+        for _ in range(r.choice([5, 8])):
+            x = r.random()
+            kk = r.choice(keys3)
+            base.append(["set", kk, hx(rand_val(r))] if x < 0.35 else ["del", kk] if x < 0.45 else ["get", kk] if x < 0.8 else ["bget", ",".join(keys3)])
+        head = [["set", keys3[0], "7630"], ["set", keys3[1], "7631"], ["del", keys3[2]], ["flush", "1", "1", "0"]]
+        for pos in range(len(base) + 1):
+            for steps in ([], ["0"], ["2", "0", "1"]):
+                ops = head + base[:pos] + [["storestep", i] for i in steps] + [["complete", "1"]] + base[pos:]
+                ops += [["flush", "1", "1", "0"], ["flushwait", "1"]] + [["get", kk] for kk in keys3]
+                cases.append(("sweep-%d-%d-%d-%d" % (seed, b, pos, len(steps)), "sweep", (0, 0, 0), ops))
     n = {"quick": 2500, "thorough": 12000}.get(tier, 2500)
     classes = ["rand", "window", "force", "thresh", "err", "staging", "stale", "window", "exist", "limit"]
     for i in range(n):
